@@ -39,7 +39,7 @@ def run(ctx):
                  ("C10-R5", "lazy queuing under shared access only pushes onto the lock-free queue")]:
         ctx.rule(r, t)
     for cfg in configs(ctx.tier):
-        facts = ctx.facts(cfg)
+        facts = ctx.xfacts(cfg)
         model = AllocModel(facts)
         r1(ctx, facts, model)
         r2(ctx, facts, model)
@@ -147,25 +147,18 @@ def r3(ctx, facts, model):
     pops = [b for b in facts.bodies if b.self_ty == CACHE and b.argc == 1 and c12.is_shared_ref(b.ltype[1]) and "Option<u32>" in b.ltype[0].replace(" ", "")]
     ctx.floor("C10-R3", "deferred (shared-access) pop methods of the free list", len(pops), 1)
     for b in pops:
-        ok = False
-        why = "the deferred pop does not map the result of an atomic RMW helper on `len` to the slot"
-        for bb, t in b.calls():
-            c = t["callee"]
-            if c.get("name") in ("map", "and_then") and "option::Option" in c.get("path", ""):
-                ro = b.arg_origin(bb, 0)
-                if ro[0] == "call" and b.term(ro[1])["callee"].get("path") in writers and model.field_of(b, b.arg_origin(ro[1], 0)) == ("len",):
-                    co = b.arg_origin(bb, 1)
-                    if co[0] == "agg":
-                        cb = facts.body(b.blocks[co[1]]["stmts"][co[2]]["rv"].get("closure", ""))
-                        if cb:
-                            idx = [(cbb, ct) for cbb, ct in cb.calls() if ct["callee"].get("name") in ("index", "get", "get_unchecked")]
-                            good = bool(idx)
-                            for cbb, ct in idx:
-                                deps = cb.deps(cb.arg_origin(cbb, 1))
-                                if ("param", 2, ()) not in deps or any(d[0] == "call" and cb.term(d[1])["callee"].get("name") == "load" for d in deps):
-                                    good = False
-                            ok = good
-                            why = "" if ok else "the slot index is not derived (only) from the value the RMW returned"
+        idx = [(bb, t) for bb, t in b.calls() if t["callee"].get("name") in ("index", "get", "get_unchecked", "index_mut") and t["args"]
+               and model.field_of(b, b.arg_origin(bb, 0)) == ("cache",)]
+        ok = bool(idx)
+        why = "" if ok else "the deferred pop does not read a slot of the free list"
+        for bb, t in idx:
+            deps = b.deps(b.arg_origin(bb, 1))
+            from_rmw = any(d[0] == "call" and (b.term(d[1])["callee"].get("path") in writers) and d[2][:1] == ("as Some",)
+                           and model.field_of(b, b.arg_origin(d[1], writers[b.term(d[1])["callee"]["path"]])) == ("len",) for d in deps)
+            stale = [b.loc(d[1]) for d in deps if d[0] == "call" and b.term(d[1])["callee"].get("name") == "load"]
+            if not from_rmw or stale:
+                ok = False
+                why = "the slot index is not derived (only) from the value the atomic RMW on `len` returned (from the RMW: %s, separate loads: %s)" % (from_rmw, stale)
         loads = [b.loc(bb) for bb, t in b.calls() if t["callee"].get("name") == "load"]
         if loads:
             ok, why = False, "a separate load at %s: check-then-act on the free-list length" % loads
